@@ -859,7 +859,7 @@ class Address(object):
             raise BKeyError("Please specify data (public key or script) or hashed_data argument")
         if not isinstance(network, Network):
             self.network = Network(network)
-        self.data_bytes = to_bytes(data)
+        self.data_bytes = data if isinstance(data, bytes) else to_bytes(data)
         self._data = None
         self.script_type = script_type
         self.encoding = encoding
@@ -888,7 +888,7 @@ class Address(object):
                 self.encoding = 'base58'
             else:
                 self.encoding = 'bech32'
-        self.hash_bytes = to_bytes(hashed_data)
+        self.hash_bytes = hashed_data if isinstance(hashed_data, bytes) else to_bytes(hashed_data)
         self.prefix = prefix
         self.redeemscript = b''
         if not self.hash_bytes:
